@@ -65,6 +65,7 @@ type Monitor struct {
 }
 
 type GhostDecl struct {
+	Book bool // bookkeeping: specification-only counter/record, changed only by contracts that list it
 	Name string
 	Key  *Sort // nil: plain variable
 	Val  Sort
@@ -205,11 +206,16 @@ func (db *ContractDB) loadFile(path, pkgPath string) error {
 		word, rest := splitWord(line)
 		switch word {
 		case "ghost":
+			book := false
+			if strings.HasSuffix(rest, " book") {
+				book = true
+				rest = strings.TrimSpace(strings.TrimSuffix(rest, " book"))
+			}
 			m := regexp.MustCompile(`^(\w+)\(\s*(\w*)\s*\)\s+(\w+)$`).FindStringSubmatch(rest)
 			if m == nil {
 				return fmt.Errorf("%s: bad ghost decl", src)
 			}
-			g := &GhostDecl{Name: m[1]}
+			g := &GhostDecl{Name: m[1], Book: book}
 			if m[2] != "" {
 				s, ok := parseSort(m[2])
 				if !ok {
